@@ -47,6 +47,9 @@ impl Vm {
                     self.bp = 0;
                     self.ep = usize::MAX;
                     self.acc = VCell::undefined();
+                    // A failed evaluation is a collection point like a finished one: otherwise
+                    // a run of failures never collects and the heap only grows.
+                    self.run_gc();
                     return Err(e);
                 }
             }
